@@ -273,7 +273,8 @@ def read_subints(self, startsub, nsubs, poln_select=1, scloffs=True, weights=Tru
     "read_subint": '''
 def read_subint(self, isub, scloffs=True, weights=True):
     sdata = self._fits["SUBINT"].data[isub]["DATA"]
-    sdata = sdata.squeeze()
+    while sdata.ndim > 3 and sdata.shape[0] == 1:
+        sdata = sdata[0]
     if self.bitsinfo.unpack:
         data = unpack(sdata.ravel(), self.bitsinfo.nbits)
         data = data.reshape((sdata.shape[0] * self.bitsinfo.bitfact, sdata.shape[1], sdata.shape[2]))
@@ -326,7 +327,7 @@ def read_subint_pol(self, isub, poln_select=1, scloffs=True, weights=True):
     elif self.sub_hdr.poln_state == "Stokes":
         data = sdata[:, 0, :]
     elif self.sub_hdr.poln_state == "Intensity":
-        data = sdata[:, 0, :].squeeze()
+        data = sdata[:, 0, :]
     return data
 ''',
     "quantize": '''
